@@ -5,6 +5,7 @@ import (
 	"math/big"
 	"strconv"
 	"strings"
+	"time"
 
 	"github.com/mmcloughlin/addchain"
 )
@@ -134,7 +135,11 @@ func c18Calls(g *Gen, calls []c18Call) {
 	safe(func() { ch = encInts(p.Evaluate()) })
 	safe(func() { db, ad = p.Count() })
 	safe(func() { rd = encIntSlice(p.ReadCounts()) })
-	safe(func() { dp = encBigs(p.Dependencies()) })
+	safe(func() {
+		// the sets of an earlier call are the caller's to update in place; a later call is unaffected
+		c19scribble(p.Dependencies()...)
+		dp = encBigs(p.Dependencies())
+	})
 	// the analyses must not modify the program
 	same := len(final) == len(p)
 	for k := range final {
@@ -329,6 +334,44 @@ func c18Random(g *Gen) {
 	}
 	c18Calls(g, calls)
 	g.Count("random")
+	// shift amounts beyond the range of a Go int, on an operand that does not exist (with a valid
+	// operand such a call would legitimately append without end): the call must be refused at once and
+	// leave the program unchanged. Judged here (the driver's models take shift amounts as small numbers).
+	if g.R.Intn(8) == 0 && !g.notesViolation() {
+		big := []uint{1 << 63, 1<<63 + 5, ^uint(0), 1 << 62, 1 << 31, 1 << 32}[g.R.Intn(6)]
+		bad := []int{-1, -7, L + 1, L + 2, 1 << 20}[g.R.Intn(5)]
+		p := addchain.Program{}
+		for _, c := range calls {
+			safe(func() { _, _ = c18Apply(&p, c) })
+		}
+		before := append(addchain.Program{}, p...)
+		done := make(chan string, 1)
+		go func() {
+			var err error
+			pn := safe(func() { _, err = p.Shift(bad, big) })
+			switch {
+			case pn != "":
+				done <- "panic: " + pn
+			case err == nil:
+				done <- "accepted"
+			default:
+				done <- "refused"
+			}
+		}()
+		res := "no answer within 5s"
+		select {
+		case res = <-done:
+		case <-time.After(5 * time.Second):
+		}
+		same := len(before) == len(p)
+		for k := range before {
+			same = same && k < len(p) && before[k] == p[k]
+		}
+		if res != "refused" || (res == "refused" && !same) {
+			g.Notes = append(g.Notes, fmt.Sprintf("VIOLATION: Program.Shift(%d, %d) on a program of %d operations: %s (program unchanged: %v)", bad, big, len(before), res, same))
+		}
+		g.Count("huge-shift-bad-operand")
+	}
 }
 
 // c18Ascending enumerates the valid ascending chains of exactly the given length.
